@@ -1265,6 +1265,32 @@ def gen_C16(seed, tier):
                 for e in (30, 45, 60):
                     c.spl_eval(1, Fr(3, 2 ** e)); c.spl_eval(1, -Fr(1, 2 ** e)); c.spl_eval(2, Fr(5, 2 ** e))
         cases.append(c)
+    # pieces dominated by their ODD local coefficients (even ones smaller by 2^-24..2^-40) and the converse: the exact
+    # integral over an interval only involves the even local powers, so the terms involved - and S - are tiny; a kernel
+    # that lets the odd powers take part in the rounded sums and cancel at the end is far outside the bound
+    for r in range(3 if tier == 'quick' else 12):
+        c = Case(f"C16o{r}")
+        n = rng.randint(3, 6)
+        pts = dyadic_grid(rng, n) if r % 2 else [Fr(k, 2) - Fr(n - 1, 4) for k in range(n)]
+        c.grid_new(0, pts)
+        c.sup_new(1001, 0, 0, n)
+        oa, ob = rng.randint(1, 5), rng.randint(1, 5)
+        def tiny():
+            return Fr(rng.choice([-3, -1, 1, 3, 5]), 2 ** rng.randint(24, 40))
+        c.spl_new(1, oa, 1001, [[(tiny() if k % 2 == 0 else (dyadic_coef(rng) or Fr(1))) for k in range(oa + 1)] for _ in range(n - 1)])
+        c.spl_new(2, ob, 1001, [[(tiny() if k % 2 == 1 else (dyadic_coef(rng) or Fr(1))) for k in range(ob + 1)] for _ in range(n - 1)])
+        c.show(1); c.show(2)
+        c.lin(E('Id'), 1)
+        c.lin(E('Der', 2), 1)
+        c.lin(E('SMulL', Sc('F', Fr(3, 4)), E('Id')), 1)
+        c.lin(E('Der', 1), 2)
+        c.lin(E('Id'), 2)
+        c.bilin(E('Id'), E('Id'), 1, 2)
+        c.bilin(E('Der', 2), E('Id'), 1, 2)
+        c.bilin(E('Id'), E('Der', 2), 1, 2)
+        c.bilin(E('Der', 1), E('Der', 1), 1, 2)
+        c.bilin(E('Id'), E('Id'), 1, 1)
+        cases.append(c)
     return cases
 
 
